@@ -61,6 +61,9 @@ def cases(tier, seed):
                 if isinstance(r, list) and r[0] == "t" and isinstance(c, list) and c[0] == "t" and len(r[1]) != len(c[1]):
                     c = ["t", (c[1] * len(r[1]))[: len(r[1])]]
                 yield {"kind": "index", "n": n, "t": t, "batch": [], "interleaved": inter, "idx": [r, c], "seed": rnd.randrange(10**6)}
+            # the same index expressions on a covariance stored as a diagonal operator (repeated entries among them)
+            for r, c in rnd.sample(pairs, 120 if tier == "quick" else 700):
+                yield {"kind": "index", "n": n, "t": t, "batch": rnd.choice([[], [2]]) if False else [], "interleaved": inter, "idx": [r, c], "rep": "diag", "seed": rnd.randrange(10**6)}
             # batch positions and ellipsis placements
             sub = rnd.sample(pairs, 60 if tier == "quick" else 400)
             for r, c in sub:
@@ -119,6 +122,13 @@ def _make(case, g):
         nblk, sz = (n, t) if case["interleaved"] else (t, n)
         cov_obj = BlockDiagLinearOperator(_spd(g, *b, nblk, sz))
         cov = cov_obj.to_dense()
+    elif rep == "diag":
+        # independent outputs held as a diagonal OPERATOR (what from_independent variances / mean-field posteriors produce)
+        from linear_operator.operators import DiagLinearOperator
+
+        dv_ = util.rand(g, *b, n * t) + 0.2
+        cov_obj = DiagLinearOperator(dv_)
+        cov = torch.diag_embed(dv_)
     elif rep == "kron":
         A, B = (_spd(g, *b, n), _spd(g, *b, t)) if case["interleaved"] else (_spd(g, *b, t), _spd(g, *b, n))
         cov_obj = KroneckerProductLinearOperator(A, B)
@@ -230,6 +240,10 @@ def _basics(case, ctx, g):
     per = per.permute(*range(1, per.dim() - 2), 0, per.dim() - 2, per.dim() - 1) if per.dim() > 3 else per
     ctx.close("to_data_independent", di.covariance_matrix, per + 1e-4 * torch.eye(t), "direct", cls=lay)
     ctx.close("to_data_independent_mean", di.mean, M, "bit", cls=lay)
+    # the documented jitter_val keyword is honoured on EVERY call of the same object (another value, then the first one again)
+    for jv_ in (1e-2, 0.0, 1e-4):
+        dj = d.to_data_independent_dist(jitter_val=jv_)
+        ctx.close("to_data_independent", dj.covariance_matrix, per + jv_ * torch.eye(t), "direct", cls=lay + ":second_call_other_jitter")
     ctx.cell({k: v for k, v in case.items() if k != "seed"}, nontrivial=nt >= 2)
 
 
@@ -309,7 +323,7 @@ def _index(case, ctx, g):
     from vf.gen import index as IX
 
     n, t, b = case["n"], case["t"], case["batch"]
-    d, M, C = _make(dict(case, rep="dense"), g)
+    d, M, C = _make(dict(case, rep=case.get("rep", "dense")), g)
     idx = IX.decode_index(case["idx"])
     idx_arg = idx if len(idx) != 1 else idx[0]
     nb = 1
